@@ -20,6 +20,7 @@
 #include <cnl/fraction.h>
 
 #include <cmath>
+#include <map>
 #include <string>
 #include <vector>
 
@@ -252,6 +253,11 @@ template<class T, class F, Form form>
     // one designated shard per program confirms its first hang with a long watchdog (2 s quick / 5 s thorough)
     bool const confirm_here = int(vf::fnv(name) % uint64_t(vf::g.nshards)) == vf::g.shard;
     bool hang_confirmed = false;
+    // the detail text (exact rational of x, result) is only built for the first three cases of a class
+    std::map<std::string, int> seen;
+    auto report = [&](std::string const& key, std::string const& case_id, auto&& detail) {
+        vf::violation(key, case_id, seen[key]++ < 3 ? detail() : std::string());
+    };
     constexpr size_t ROW = 64;
     for (size_t r0 = 0; r0 < xs.size(); r0 += ROW) {
         if (!vf::my_row()) continue;
@@ -290,16 +296,22 @@ template<class T, class F, Form form>
             //   F arithmetic") | nbr_none (not even the adjacent in-range fractions convert back to x)
             const char* mag = xn.is_zero() ? "zero" : (ax == Rat(maxT) ? "at_max" : (ax * Rat(maxT) < one ? "below_1_over_max" : (ax < one ? "below_1" : "ge_1")));
             const char* rep = xn.is_zero() ? "zero" : (xd == Big(1) ? "integer" : (exact ? "exact_ratio" : "inexact"));
-            std::string region = std::string(mag) + "/" + rep;
+            // neighbours and the nbr label are computed on demand (inexact inputs only)
             Nbr nb;
-            bool nearer_is_left = false;
-            if (!exact) {
-                nb = neighbours(xn.abs(), xd, maxT);
-                bool const conv = convert_back<F>(nb.ln, nb.ld) == ax || convert_back<F>(nb.rn, nb.rd) == ax;
-                region += conv ? "/nbr_converts" : "/nbr_none";
-                // |x| - L <= R - |x|  <=>  2 |x| <= L + R   (in integers: denormal inputs have 1000-bit denominators)
-                nearer_is_left = Big(2) * xn.abs() * nb.ld * nb.rd <= (nb.ln * nb.rd + nb.rn * nb.ld) * xd;
-            }
+            bool have_nb = false;
+            auto need_nb = [&] {
+                if (!have_nb) nb = neighbours(xn.abs(), xd, maxT);
+                have_nb = true;
+            };
+            auto region = [&]() -> std::string {
+                std::string r = std::string(mag) + "/" + rep;
+                if (!exact) {
+                    need_nb();
+                    bool const conv = convert_back<F>(nb.ln, nb.ld) == ax || convert_back<F>(nb.rn, nb.rd) == ax;
+                    r += conv ? "/nbr_converts" : "/nbr_none";
+                }
+                return r;
+            };
 
             T gn{}, gd{};
             vf::Outcome o = vf::run([&] {
@@ -328,22 +340,21 @@ template<class T, class F, Form form>
                     detail += std::string(o2.kind == vf::HANG ? " (confirmed: still running after " : " (NOT confirmed after ") + (VF_TIER ? "5" : "2") + " s CPU: " + o2.str() + ")";
                     if (o2.kind != vf::HANG) what = "slow_not_hang";
                 }
-                vf::outcome(kind + "/" + region);
-                vf::violation(what + "/" + region, id(), detail);
+                vf::outcome(kind + "/" + region());
+                report(what + "/" + region(), id(), [&] { return detail; });
                 continue;
             }
-            std::string const got = vf::to_s(gn) + "/" + vf::to_s(gd);
-            std::string const detail0 = name + "(" + id() + " = " + xr.str() + ") = " + got;
+            auto detail0 = [&] { return name + "(" + id() + " = " + xr.str() + ") = " + vf::to_s(gn) + "/" + vf::to_s(gd); };
             if (!(gd > 0)) {
                 vf::outcome("denominator_not_positive");
-                vf::violation(std::string("denominator_not_positive/") + (gd == 0 ? "zero/" : "negative/") + region, id(), detail0);
+                report(std::string("denominator_not_positive/") + (gd == 0 ? "zero/" : "negative/") + region(), id(), detail0);
                 continue;
             }
             Big const fn(gn), fd(gd);
             Rat const f(fn, fd);
             if (fn.sign() != 0 && (fn.sign() < 0) != negx) {
                 vf::outcome("wrong_sign");
-                vf::violation("sign/" + region, id(), detail0 + ": sign differs from the input");
+                report("sign/" + region(), id(), [&] { return detail0() + ": sign differs from the input"; });
                 continue;
             }
             Rat const err = (f - xr).abs();
@@ -357,24 +368,27 @@ template<class T, class F, Form form>
                 }
                 bool const roundtrip = convert_back<F>(fn, fd) == xr;
                 vf::outcome(roundtrip ? "not_exact_but_converts_back" : "not_exact");
-                vf::violation(std::string("value/exact_ratio_not_reproduced/") + (roundtrip ? "converts_back_to_x" : "does_not_convert_back") + (within ? "/within_error_bound/" : "/beyond_error_bound/") + region, id(),
-                              detail0 + ", but x is exactly " + xr.str() + " with both components representable");
+                report(std::string("value/exact_ratio_not_reproduced/") + (roundtrip ? "converts_back_to_x" : "does_not_convert_back") + (within ? "/within_error_bound/" : "/beyond_error_bound/") + region(), id(),
+                       [&] { return detail0() + ", but x is exactly " + xr.str() + " with both components representable"; });
                 continue;
             }
             Big const fl = xr.floor();
             if (f < Rat(fl) || f > Rat(fl + Big(1))) {
                 vf::outcome("outside_adjacent_integers");
-                vf::violation("value/outside_adjacent_integers/" + region, id(), detail0 + ": not within [" + fl.str() + "," + (fl + Big(1)).str() + "]");
+                report("value/outside_adjacent_integers/" + region(), id(), [&] { return detail0() + ": not within [" + fl.str() + "," + (fl + Big(1)).str() + "]"; });
                 continue;
             }
             if (!within) {
                 vf::outcome("error_bound");
-                vf::violation("value/error_bound/" + region, id(), detail0 + ": |f-x| >= max(1,|x|)*2^" + std::to_string(4 - D));
+                report("value/error_bound/" + region(), id(), [&] { return detail0() + ": |f-x| >= max(1,|x|)*2^" + std::to_string(4 - D); });
                 continue;
             }
             // accepted: how good is it? (the nearer / the other adjacent in-range fraction / something else)
-            Rat const af = f.abs();
-            bool const isL = af == Rat(nb.ln, nb.ld), isR = af == Rat(nb.rn, nb.rd);
+            need_nb();
+            // |x| - L <= R - |x|  <=>  2 |x| <= L + R   (in integers: denormal inputs have 1000-bit denominators)
+            bool const nearer_is_left = Big(2) * xn.abs() * nb.ld * nb.rd <= (nb.ln * nb.rd + nb.rn * nb.ld) * xd;
+            Big const an = fn.abs();
+            bool const isL = an * nb.ld == nb.ln * fd, isR = an * nb.rd == nb.rn * fd;
             const char* q = (isL || isR) ? ((isL == nearer_is_left) ? "nearest" : "adjacent") : "other";
             if (fn.is_zero()) vf::outcome(std::string("ok_rounds_to_zero/") + mag + "/" + q);
             else vf::outcome(std::string("ok_approx/") + mag + "/" + q);
@@ -383,12 +397,12 @@ template<class T, class F, Form form>
 }
 
 template<class T>
-void all_F(Tier t, Tier t_float)
+void all_F(Tier t, Tier t_ctor_float)
 {
-    prog<T, float, CTOR>(t_float);
+    prog<T, float, CTOR>(t_ctor_float);
     prog<T, double, CTOR>(t);
     prog<T, long double, CTOR>(t);
-    prog<T, float, MAKE>(t_float);
+    prog<T, float, MAKE>(t);
     prog<T, double, MAKE>(t);
     prog<T, long double, MAKE>(t);
 }
